@@ -14,7 +14,7 @@ def pkg_name(rel):
     return os.path.basename(rel)
 
 
-def build_overlay(dst, harness_files, extra=None, clock_pkgs=()):
+def build_overlay(dst, harness_files, extra=None, clock_pkgs=(), kernel_pkgs=()):
     """harness_files: list of paths relative to VERIF/harness (e.g. pkg/x25/zz_verif_c02.go).
     extra: dict relpath -> content (generated harnesses). Writes rt file per package."""
     if os.path.exists(dst):
@@ -41,6 +41,10 @@ def build_overlay(dst, harness_files, extra=None, clock_pkgs=()):
     for p in clock_pkgs:
         with open(os.path.join(dst, p, 'zz_verif_rt_clock.go'), 'w') as f:
             f.write(ctmpl.replace('PKGNAME', pkg_name(p)))
+    ktmpl = open(os.path.join(VERIF, 'harness', 'rt_kernel.go.tmpl')).read()
+    for p in kernel_pkgs:
+        with open(os.path.join(dst, p, 'zz_verif_rt_kernel.go'), 'w') as f:
+            f.write(ktmpl.replace('PKGNAME', pkg_name(p)))
     return sorted(pkgs)
 
 
